@@ -5,3 +5,4 @@ import LpModel.C20.Time
 import LpModel.C20.Text
 import LpModel.C20.Chunk
 import LpModel.C20.Ragged
+import LpModel.C20.Box
